@@ -489,3 +489,33 @@ func (w *World) ExpectedLookup(p *Pair, upto uint64, lookup model.Lookup) []mode
 const fakepgDelCursor = `delete from shovel.task_updates where src_name = $1 and ig_name = $2 and num >= $3`
 
 func bigZero() *big.Int { return new(big.Int) }
+
+// rebuildTasksWithClients rebuilds the tasks keeping the clients already set on
+// the sources (used when a test installs specially configured clients).
+func (w *World) rebuildTasksWithClients() error {
+	keep := map[string]*jrpc2.Client{}
+	for _, s := range w.Sources {
+		keep[s.Name] = s.client
+	}
+	var pairs []*Pair
+	for i, ig := range w.conf.Integrations {
+		if !ig.Enabled {
+			continue
+		}
+		for _, sr := range ig.Sources {
+			s := w.source(sr.Name)
+			ctx := context.Background()
+			ctx = wctx.WithChainID(ctx, s.ChainID)
+			ctx = wctx.WithSrcName(ctx, s.Name)
+			ctx = wctx.WithIGName(ctx, ig.Name)
+			task, err := shovel.NewTask(shovel.WithContext(ctx), shovel.WithPG(w.pool), shovel.WithRange(sr.Start, sr.Stop), shovel.WithConcurrency(s.Conc, s.Batch),
+				shovel.WithSrcName(s.Name), shovel.WithChainID(s.ChainID), shovel.WithSource(keep[s.Name]), shovel.WithIntegration(ig))
+			if err != nil {
+				return err
+			}
+			pairs = append(pairs, &Pair{Src: s, Decl: w.decls[i].WithRequired(), Start: sr.Start, Stop: sr.Stop, task: task, ig: ig})
+		}
+	}
+	w.Pairs = pairs
+	return nil
+}
